@@ -299,7 +299,7 @@ func (g *gen) links(n int) []string {
 		case len(out) > 0 && g.r.Chance(1, 6):
 			out = append(out, out[0])
 		default:
-			out = append(out, url(g))
+			out = append(out, genURL(g))
 		}
 	}
 	return out
